@@ -2,13 +2,8 @@
 
 package bitcoin
 
-import "gitlab.com/yawning/secp256k1-voi"
-
 func init() {
 	VerifSignSchnorr = func(aux *[32]byte, sk *SchnorrPrivateKey, msg []byte) ([]byte, error) {
 		return signSchnorr(aux, sk, msg)
-	}
-	VerifVerifySchnorrSelf = func(d *secp256k1.Scalar, pkXBytes, msg, sig []byte) bool {
-		return verifySchnorrSelf(d, pkXBytes, msg, sig)
 	}
 }
